@@ -24,7 +24,11 @@ var js *jsclient.Runner
 var jsErr error
 
 func TestMain(m *testing.M) {
-	js, jsErr = jsclient.Start()
+	if os.Getenv("VERIF_NOJS") != "" {
+		jsErr = fmt.Errorf("disabled by VERIF_NOJS")
+	} else {
+		js, jsErr = jsclient.Start()
+	}
 	if jsErr != nil {
 		rec.Extra("js_leg", "skipped: "+jsErr.Error())
 	} else {
